@@ -18,14 +18,12 @@ Proof.
   - cbn in H. inversion H; subst. split; [reflexivity|]. split; [cbn; lia|]. split; [reflexivity|].
     split; [intro C; contradiction|reflexivity].
   - unfold mr_read in H.
-    set (m := Nat.min k (length (b :: r))) in H.
-    set (j := match fst o with O => m | S h => Nat.min (S h) m end) in H.
-    assert (Hm : (1 <= m <= k)%nat /\ (m <= length (b :: r))%nat) by (unfold m; cbn [length]; lia).
-    assert (Hj : (1 <= j <= m)%nat) by (unfold j; destruct (fst o); lia).
+    set (j := match fst o with O => k | S h => Nat.min (S h) k end) in H.
+    assert (Hj : (1 <= j <= k)%nat) by (unfold j; destruct (fst o); lia).
     inversion H; subst chunk rest' eof; clear H.
     split; [apply firstn_skipn|]. split; [rewrite firstn_length; lia|].
     split. { intro E. apply andb_prop in E. apply is_nil_true. exact (proj2 E). }
-    split; [intros _; rewrite firstn_length; lia | intro C; discriminate].
+    split; [intros _; rewrite firstn_length; cbn [length]; lia | intro C; discriminate].
 Qed.
 
 (* ---------- the inner loop of read ---------- *)
